@@ -26,7 +26,7 @@ ASSUMPTIONS = [
     "the pristine process is a forkserver child: the server imported wavespectra (with the extension built from the tree) but never executed an operation",
 ]
 
-OBS_OPS_DA = ["hs", "tm02", "dm", "dspr", "tp", "dpm", "dp", "oned", "momf1", "smooth33", "rotate", "interp_freq", "split_f", "ptm3", "ptm5", "bbox", "to_energy", "stats_list", "uss", "swe", "goda", "celerity", "gamma", "alpha"]
+OBS_OPS_DA = ["hs", "tm02", "dm", "dspr", "tp", "dpm", "dp", "oned", "momf1", "smooth33", "rotate", "interp_freq", "split_f", "ptm3", "ptm5", "bbox", "to_energy", "stats_list", "uss", "swe", "goda", "celerity", "gamma", "alpha", "dpspr", "gw", "sw", "hmax"]
 OBS_OPS_DS = OBS_OPS_DA + ["ptm1", "ptm2", "ptm4", "ptm1_smooth"]
 EXTRA_OBS = ["stats_bad"]
 
@@ -104,13 +104,15 @@ def obj_spec(draw):
     dg = draw(gen.dir_grid(3, 12, spacing=("whole", "dyadic")))
     kind = draw(st.sampled_from(["Dataset", "Dataset", "DataArray", "DataArray-named"]))
     nt = draw(st.integers(1, 3))
-    return dict(fg=fg, dg=dg, kind=kind, dims=[["time", nt]], specs=[draw(gen.spectrum(kinds=("multinoisy", "multi", "sparse"))) for _ in range(nt)],
+    # a record without energy (calm / land point) now and then: operations on it warn, which is what a leaked process-wide
+    # setting (warnings filter, floating-point error mode) would turn into a different outcome
+    return dict(fg=fg, dg=dg, kind=kind, dims=[["time", nt]], specs=[draw(gen.spectrum(kinds=("multinoisy", "multi", "sparse", "multinoisy", "zero"))) for _ in range(nt)],
                 winds=[dict(wspd=draw(st.floats(2, 25)), wdir=draw(st.floats(0, 360)), dpt=draw(st.sampled_from([5.0, 80.0])))])
 
 
 @st.composite
 def step(draw):
-    kind = draw(st.sampled_from(["call", "call", "set_efth", "set_dir", "set_freq", "partition_other", "bad_stat", "attr_lookup", "reader", "observe", "observe", "observe"]))
+    kind = draw(st.sampled_from(["call", "call", "set_efth", "set_dir", "set_freq", "partition_other", "bad_stat", "attr_lookup", "reader", "fit", "observe", "observe", "observe"]))
     s = dict(kind=kind, obj=draw(st.integers(0, 2)), via=draw(st.sampled_from(["dataset", "array"])))
     if kind in ("call", "observe"):
         s["op"] = draw(ops.op_spec(names=OBS_OPS_DS, has_dir=True, nf=3))
@@ -136,6 +138,8 @@ def step(draw):
         s["name"] = draw(st.sampled_from(["spectrum", "nosuchvar", "efth2", "value"]))
     elif kind == "reader":
         s["which"] = draw(st.sampled_from(["ww3", "ncswan", "wwm"]))
+    elif kind == "fit":
+        s["which"] = draw(st.sampled_from(["fit_jonswap", "fit_gaussian"]))
     return s
 
 
@@ -218,6 +222,7 @@ def check_history(case, ctx):
     nobs = 0
     last = None
     nt = False
+    suspicious = 0  # observations still to be repeated in the pristine process because of what just happened
     for s in case["steps"]:
         L = lives[s["obj"] % len(lives)]
         k = s["kind"]
@@ -261,7 +266,16 @@ def check_history(case, ctx):
             if edited or len(shapes_seen) >= 2 or looked:
                 nt = True
             # the same observation in a pristine process (first four observations and every rejection check)
-            if (nobs <= 4 or op["op"] == "stats_bad") and not (L.kind != "Dataset" and op["op"] in ("ptm1", "ptm2", "ptm4", "ptm1_smooth")):
+            import warnings as _w
+
+            if got[0] == "raised" or any(f[0] == "error" for f in _w.filters) or tuple(np.geterr().values()) != ("warn", "warn", "ignore", "warn"):
+                suspicious = max(suspicious, 1)  # an observation that raises, or a process set to turn warnings into errors
+            if suspicious:
+                suspicious -= 1
+                force = True
+            else:
+                force = False
+            if (nobs <= 4 or op["op"] == "stats_bad" or force) and not (L.kind != "Dataset" and op["op"] in ("ptm1", "ptm2", "ptm4", "ptm1_smooth")):
                 model = dict(L.model)
                 model["coords"] = {k_: (("datetime64[ns]", v.astype("datetime64[ns]").astype("int64").tolist()) if k_ == "time" else np.array(v)) for k_, v in model["coords"].items()}
                 pw = server().ask((model, dict(op, via=via)))
@@ -333,7 +347,15 @@ def check_history(case, ctx):
             _ = A.ATTRS[s["name"]]
             _ = A.ATTRS[s["name"]]["units"]
             looked += 1
+        elif k == "fit":
+            try:
+                r = getattr(L.efth().spec, s["which"])()
+                r.load() if hasattr(r, "load") else None
+            except Exception:  # noqa: BLE001 - discarded call
+                pass
+            suspicious = 3
         elif k == "reader":
+            suspicious = max(suspicious, 2)
             o = case["objs"][s["obj"] % len(case["objs"])]
             T = native.truth(o["fg"], o["dg"], o["specs"], 2, 2, o["winds"], gen)
             nds = {"ww3": native.ww3, "ncswan": native.ncswan, "wwm": native.wwm}[s["which"]](T)
